@@ -11,6 +11,7 @@ import (
 	"strings"
 	"sync"
 	"testing/synctest"
+	"time"
 
 	"verifharness/sched"
 	"verifharness/trace"
@@ -36,7 +37,10 @@ type ccFn struct {
 type ccScenario struct {
 	Fns    []ccFn `json:"fns"`
 	Cancel bool   `json:"cancel"`
-	XK     int    `json:"xk,omitempty"`
+	// deadline: the caller's context ends by its deadline (virtual time) instead of its cancel func:
+	// ctx.Err() is then context.DeadlineExceeded, an error no function returns
+	Deadline bool `json:"deadline,omitempty"`
+	XK       int  `json:"xk,omitempty"`
 }
 
 var (
@@ -105,6 +109,7 @@ func genCcall(x *sched.Exec) ccScenario {
 		sc.Fns = append(sc.Fns, f)
 	}
 	sc.Cancel = r.Intn(2) == 0
+	sc.Deadline = sc.Cancel && r.Intn(3) == 0
 	return sc
 }
 
@@ -240,6 +245,9 @@ func (d *ccDriver) Run(x *sched.Exec, raw json.RawMessage) json.RawMessage {
 		fns = append(fns, d.mkFn(i+1, f))
 	}
 	ctx, cancel := context.WithCancel(context.Background())
+	if d.sc.Deadline {
+		ctx, cancel = context.WithDeadline(context.Background(), time.Now().Add(time.Hour))
+	}
 	d.cancel = cancel
 	d.c.Prog = []sched.Op{{Label: "call:c1", Do: func() {
 		x.Log(trace.E{"ev": "call", "kinds": kinds})
@@ -269,7 +277,11 @@ func (d *ccDriver) Run(x *sched.Exec, raw json.RawMessage) json.RawMessage {
 	doCancel := func() {
 		d.canc = true
 		x.Log(trace.E{"ev": "cancel"})
-		d.cancel()
+		if d.sc.Deadline {
+			x.Tick(2 * time.Hour)
+		} else {
+			d.cancel()
+		}
 	}
 	flying := func() bool {
 		d.mu.Lock()
